@@ -50,6 +50,13 @@ Theorem C18_dict_stats_alloc_safe : forall (plan : nat -> bool) (grow : bool),
 Proof. exact oom_thm_dict_stats. Qed.
 Print Assumptions C18_dict_stats_alloc_safe.
 
+(* varintDictCompressionRatio (EncodedSize behind it; 0.0f = failure) *)
+Theorem C18_dict_ratio_alloc_safe : forall (plan : nat -> bool) (grow : bool),
+  let r := arun_plan plan (oom_dict_ratio_skel grow) in
+  (oom_val r = OomFail /\ oom_live r = 0%Z) \/ (oom_val r = OomOkCorrect /\ oom_live r = 0%Z).
+Proof. exact oom_thm_dict_ratio. Qed.
+Print Assumptions C18_dict_ratio_alloc_safe.
+
 (* varintDictDecode: NULL, or the output array (one block owned by the caller) *)
 Theorem C18_dict_decode_alloc_safe : forall (plan : nat -> bool),
   let r := arun_plan plan oom_dict_decode_skel in
@@ -84,6 +91,13 @@ Theorem C18_float_encode_alloc_safe : forall (plan : nat -> bool),
   (oom_val r = OomFail /\ oom_live r = 0%Z) \/ (oom_val r = OomOkCorrect /\ oom_live r = 0%Z).
 Proof. exact oom_thm_float_encode. Qed.
 Print Assumptions C18_float_encode_alloc_safe.
+
+(* varintFloatEncodeAuto (count > 0): Encode at the selected precision *)
+Theorem C18_float_encode_auto_alloc_safe : forall (plan : nat -> bool),
+  let r := arun_plan plan oom_float_encode_auto_skel in
+  (oom_val r = OomFail /\ oom_live r = 0%Z) \/ (oom_val r = OomOkCorrect /\ oom_live r = 0%Z).
+Proof. exact oom_thm_float_encode_auto. Qed.
+Print Assumptions C18_float_encode_auto_alloc_safe.
 
 (* varintFloatDecode (count > 0): 4 + 1 *)
 Theorem C18_float_decode_alloc_safe : forall (plan : nat -> bool) (has_normal : bool),
